@@ -354,14 +354,26 @@ func (p *sparser) primary() (*SExpr, error) {
 		case "nil":
 			return &SExpr{Op: "nil", Name: "nil", Pos: t.p}, nil
 		case "forall", "exists":
-			v := p.next()
-			if v.k != "id" {
-				return nil, fmt.Errorf("expected bound variable at %d in %q", v.p, p.s)
+			var vs, tys []string
+			for {
+				v := p.next()
+				if v.k != "id" {
+					return nil, fmt.Errorf("expected bound variable at %d in %q", v.p, p.s)
+				}
+				ty := p.next()
+				if ty.k != "id" {
+					return nil, fmt.Errorf("expected binder type at %d in %q", ty.p, p.s)
+				}
+				vs = append(vs, v.v)
+				tys = append(tys, ty.v)
+				if p.isOp(",") {
+					p.next()
+					continue
+				}
+				break
 			}
-			ty := p.next()
-			if ty.k != "id" {
-				return nil, fmt.Errorf("expected binder type at %d in %q", ty.p, p.s)
-			}
+			v := stok{v: strings.Join(vs, ",")}
+			ty := stok{v: strings.Join(tys, ",")}
 			if err := p.expect("::"); err != nil {
 				return nil, err
 			}
